@@ -644,12 +644,18 @@ def _omen_lengths(ctx, rule):
     return c11.r5_length_domain(ctx, rule)
 
 
+def _omen_memo_key(ctx, rule):
+    # a Markov pre-terminal expands to exactly the strings of its level only if a cached completion answers the question it was
+    # stored for (seed C04-k: the update keyed by the loop level instead of the level asked for)
+    from . import c10
+    return c10.r2_memo_key(ctx, rule)
+
 def rules(tier):
     return [('C04.R1', r1_dispatch), ('C04.R2', r2_structural_recursion), ('C04.R3', r3_mask_slices),
             ('C04.R4', r4_count_write_pairing), ('C04.R5', r5_grouping_kernel), ('C04.R7', r7_group_cardinality),
             ('C04.R8', _exact_float),
             ('C04.R9', _mask_insertion), ('C04.R10', _omen_last), ('C04.R11', _omen_cursor), ('C04.R12', r12_output_point_total),
-            ('C04.R13', _omen_domain), ('C04.R14', _omen_prune), ('C04.R15', _omen_lengths), ('C04.R16', _omen_cache_hit)] + _loader_bundle() + []
+            ('C04.R13', _omen_domain), ('C04.R14', _omen_prune), ('C04.R15', _omen_lengths), ('C04.R16', _omen_cache_hit), ('C04.R17', _omen_memo_key)] + _loader_bundle() + []
 
 
 META = {
